@@ -457,7 +457,7 @@ func genC11(t *rapid.T) c11Case {
 	o.Spell = gen.SpellAll &^ (gen.SpellRootRel | gen.SpellMessy) // (root-relative and non-canonical absolute $refs would not survive the textual relocation below)
 	g := gen.Graph(t, o)
 	wd, _ := os.Getwd()
-	kind := gen.Uniform(t, "location", 5)
+	kind := gen.Uniform(t, "location", 6)
 	c := c11Case{}
 	isFile := true
 	switch kind {
@@ -470,6 +470,8 @@ func genC11(t *rapid.T) c11Case {
 	case 4: // a directory whose name holds characters that url.URL may or may not escape
 		// (canonical text: the escaped one, as net/url prints it; the literal spelling is one of the equivalent spellings)
 		c.Graph = relocate(g, "file:///data/a%28b%29/it%27s/w/")
+	case 5: // a first segment that looks like a drive letter, and upper-case letters in the path (paths are case-sensitive)
+		c.Graph = relocate(g, "file:///C:/Specs/Api/w/")
 	case 2:
 		c.Graph = relocate(g, "http://r.example/w/")
 		isFile = false
